@@ -103,6 +103,45 @@ pub fn long_history(start: &Pos, rng: &mut Rng, cycles: usize) -> Option<History
     Some(History { start: start.clone(), moves, end: p })
 }
 
+/// A very long game with MANY DISTINCT positions (the shuffles of `long_history` revisit a handful):
+/// a free walk until `distinct` different positions were met, then a short cycle walked `cycles`
+/// times so that the last positions carry counts above one. Record capacities, tables that stop
+/// growing, keys truncated for a table index show only here.
+pub fn wide_history(start: &Pos, rng: &mut Rng, distinct: usize, cycles: usize, h: &ZobristHasher) -> Option<History> {
+    let mut p = start.clone();
+    let mut moves: Vec<Mv> = Vec::new();
+    let mut seen = std::collections::HashSet::new();
+    seen.insert(key_of_pos(&p, h));
+    while seen.len() < distinct {
+        if moves.len() > 4 * distinct + 2000 {
+            return None;
+        }
+        let ms = legal_moves(&p);
+        // keep the game alive: a successor with a legal reply
+        let mut pick = None;
+        for _ in 0..8 {
+            let m = workload::choose_move(rng, &p, &ms, if moves.len() % 7 == 0 { Policy::Mixed } else { Policy::Uniform });
+            let np = apply(&p, m);
+            if has_legal_move(&np) {
+                pick = Some((m, np));
+                break;
+            }
+        }
+        let (m, np) = pick?;
+        moves.push(m);
+        p = np;
+        seen.insert(key_of_pos(&p, h));
+    }
+    let cyc = find_cycle(&p, rng)?;
+    for _ in 0..cycles {
+        for m in cyc {
+            moves.push(m);
+            p = apply(&p, m);
+        }
+    }
+    Some(History { start: start.clone(), moves, end: p })
+}
+
 /// Expected record: from-scratch key of every position of the game -> occurrence count.
 pub fn expected_table(hist: &History, h: &ZobristHasher) -> (HashMap<u64, u32>, u32) {
     let mut m: HashMap<u64, u32> = HashMap::new();
@@ -583,7 +622,7 @@ pub fn perpetual_roots(run: &mut Run, h: &ZobristHasher) {
 
 pub fn run(tier: Tier, seed: u64) -> i32 {
     let mut run = Run::new("C10", tier, seed, "exploration");
-    run.rule = "part a: evaluation = one game history (<= 400 plies, 1-3 repetition sites with 1..99 cycles each, irreversible moves in between, startpos and fen forms; one history per job is a very long game of 1000-2400 plies whose shuffle repeats 253..600 times) loaded through the real position handler function; the repetition record must equal the oracle's occurrence count of every position (identity: placement, side, rights, ep file) with no other non-zero entry; sessions of several position commands on the hooked binary observe the same after the real handler's clear(). part b: evaluation = one search (virtual clock, depth limits 1..5, and timed go on the real binary) from a root where the side to move is materially lost and has a move into a position that already occurred n >= 2 times (n = 2, 3, 4, 5 and, for very long games, 255, 256, 257, 258, 512); refuter: the last info score of a completed depth is below zero. part d: perpetual-check roots with sparse material whose game went through the cycle at most once, so that the third occurrence is completed inside the search line (game plus current line): from the depth at which the exact reference search values the root >= 0 twice in a row, every completed depth of the real search (limit 7) must end >= 0. Non-trivial (a) = a history whose maximum count is >= 2, (b) = every such root; distinct by position command (+ depth limit)".into();
+    run.rule = "part a: evaluation = one game history (<= 400 plies, 1-3 repetition sites with 1..99 cycles each, irreversible moves in between, startpos and fen forms; one history per job is a very long game of 1000-2400 plies whose shuffle repeats 253..600 times; one history in every eighth job is a free game that meets 1000..4200 distinct positions before its final repetition) loaded through the real position handler function; the repetition record must equal the oracle's occurrence count of every position (identity: placement, side, rights, ep file) with no other non-zero entry; sessions of several position commands on the hooked binary observe the same after the real handler's clear(). part b: evaluation = one search (virtual clock, depth limits 1..5, and timed go on the real binary) from a root where the side to move is materially lost and has a move into a position that already occurred n >= 2 times (n = 2, 3, 4, 5 and, for very long games, 255, 256, 257, 258, 512); refuter: the last info score of a completed depth is below zero. part d: perpetual-check roots with sparse material whose game went through the cycle at most once, so that the third occurrence is completed inside the search line (game plus current line): from the depth at which the exact reference search values the root >= 0 twice in a row, every completed depth of the real search (limit 7) must end >= 0. Non-trivial (a) = a history whose maximum count is >= 2, (b) = every such root; distinct by position command (+ depth limit)".into();
     run.assumptions = vec![
         "expected keys are computed from scratch through the hasher's getters (C05 covers key = position)".into(),
         "zero-count entries of the record are ignored (readers use unwrap_or(&0))".into(),
@@ -601,7 +640,22 @@ pub fn run(tier: Tier, seed: u64) -> i32 {
             let start = if rng.chance(1, 2) { Pos::start() } else { starts[rng.below(starts.len() as u64) as usize].clone() };
             // one history per job is a very long game: counts around and beyond 255, 511
             let long_cycles = [253usize, 254, 255, 256, 257, 300, 510, 511, 512, 600][j % 10];
-            let hist = if i == 1 { long_history(&start, &mut rng, long_cycles).unwrap_or_else(|| rich_history(&start, &mut rng, 400)) } else { rich_history(&start, &mut rng, 400) };
+            // one history in every eighth job is a game with 1000-4200 DISTINCT positions
+            let wide_distinct = [1000usize, 1023, 1024, 1025, 1030, 1100, 2049, 4200][(j / 8) % 8];
+            let hist = if i == 1 {
+                long_history(&start, &mut rng, long_cycles).unwrap_or_else(|| rich_history(&start, &mut rng, 400))
+            } else if i == 2 && j % 8 == 0 {
+                match wide_history(&start, &mut rng, wide_distinct, 2 + (j / 64) % 2, &h) {
+                    Some(hh) => {
+                        acc.feature("game_with_1000_or_more_distinct_positions");
+                        acc.max("max_distinct_positions_in_a_game", wide_distinct as u64);
+                        hh
+                    }
+                    None => rich_history(&start, &mut rng, 400),
+                }
+            } else {
+                rich_history(&start, &mut rng, 400)
+            };
             acc.evaluations += 1;
             let (_, maxc) = expected_table(&hist, &h);
             let cmd = hist.command();
@@ -626,7 +680,7 @@ pub fn run(tier: Tier, seed: u64) -> i32 {
         acc
     });
     for a in results {
-        run.acc.merge(a, &["max_history_plies", "max_repetition_count"]);
+        run.acc.merge(a, &["max_history_plies", "max_repetition_count", "max_distinct_positions_in_a_game"]);
     }
     // part b ------------------------------------------------------------------------------------
     let mut rng0 = Rng::stream(seed, 0xB10);
